@@ -8,6 +8,7 @@ number of other goroutines' steps.
 -/
 import GoZero.C07.ProofsSF
 import GoZero.C07.ProofsLC
+import GoZero.C07.ProofsRM
 set_option linter.unusedSimpArgs false
 namespace GoZero.C07
 
@@ -168,5 +169,48 @@ example : (LC.run LC.init lcDemo).map (fun s => s.rets.map fun r => (r.tid, r.ke
 /-- goroutine 1 really is blocked at `wg.Wait()` while 0 runs, and `lc_keys_independent` names 0 (same key). -/
 example : (LC.run LC.init (lcDemo.take 12)).map (fun s => (s.pc 1, (LC.step s 1 0).isSome, decide (s.key 0 = s.key 1)))
     = some (LC.PC.b3, false, true) := by decide
+
+/-! ## ResourceManager (core/syncx/resourcemanager.go) -/
+
+/-- **Each keyed resource is created successfully at most once**, on every schedule. -/
+theorem rm_create_once {s : RM.St} (h : RM.Reach s) (k : Key) : s.ncreate k ≤ 1 :=
+  ((RM.inv_reach h).r3 k).1
+
+/-- **Everyone gets the same instance**: a `GetResource` call that returns a resource (not an error) returns the
+instance made by the one successful `create` of its key. -/
+theorem rm_same_instance {s : RM.St} (h : RM.Reach s) (r : RRet) (hr : r ∈ s.rets) (hv : r.val ≠ 0) :
+    s.ncreate r.key = 1 ∧ r.val = s.inst r.key := by
+  have hi := RM.inv_reach h
+  obtain ⟨a1, a2, a3⟩ := hi.rets r hr
+  have := hi.r5 r.exec r.val a1 a2 hv
+  rw [a3] at this
+  exact ⟨this.1, this.2.symm⟩
+
+/-- the stored instance is that one, too. -/
+theorem rm_stored {s : RM.St} (h : RM.Reach s) (k : Key) (v : Val) (hv : s.res k = some v) :
+    s.ncreate k = 1 ∧ v = s.inst k ∧ v ≠ 0 := by
+  have := (RM.inv_reach h).r1 k v hv
+  exact ⟨this.1, this.2.1.symm, this.2.2⟩
+
+/-- at most one goroutine per key is anywhere inside the closure (lookup, `create`, store). -/
+theorem rm_exclusive {s : RM.St} (h : RM.Reach s) (t u : Tid)
+    (ht : (s.pc t).inFlight = true) (hu : (s.pc u).inFlight = true) (hk : s.key t = s.key u) : t = u :=
+  RM.flight_unique (RM.inv_reach h) t u ht hu hk
+
+theorem rm_flow {s s' : RM.St} {t : Tid} {x : Nat} (hs : RM.step s t x = some s') :
+    s'.pc t ∈ RM.succ (s.pc t) ∧ ∀ u, u ≠ t → s'.pc u = s.pc u := RM.step_flow hs
+
+/-! non-vacuity: goroutine 0's `create` for key 2 fails; goroutine 1 (joined the flight) gets the error too;
+goroutine 0 tries again and creates instance 9; goroutine 2 then finds it in the map. -/
+def rmDemo : List (Tid × Nat) :=
+  [(0,2)] ++ List.replicate 11 (0,0) ++          -- 0: invoke … create() running (g5)
+  [(1,2),(1,0),(1,0),(1,0)] ++                    -- 1: joins the flight
+  List.replicate 7 (0,0) ++                       -- 0: create fails (input 0), store, delete, Done, return
+  [(1,0),(1,0)] ++                                -- 1: returns the error
+  [(0,2)] ++ List.replicate 11 (0,0) ++ [(0,9)] ++ List.replicate 9 (0,0) ++   -- 0: second call creates 9
+  [(2,2)] ++ List.replicate 16 (2,0)              -- 2: finds 9 in the map
+
+example : (RM.run RM.init rmDemo).map (fun s => (s.rets.map fun r => (r.tid, r.key, r.val), s.ncreate 2, s.res 2))
+    = some ([(2, 2, 9), (0, 2, 9), (1, 2, 0), (0, 2, 0)], 1, some 9) := by decide
 
 end GoZero.C07
